@@ -825,10 +825,10 @@ func fanOut(b *build, prop, tier string, seed uint64, n, procs, budgetS int, kee
 			go func() { done <- cmd.Wait() }()
 			select {
 			case err := <-done:
-				ch <- wres{k, err, tail(stderr.String(), 6000)}
+				ch <- wres{k, err, tail(stderr.String(), 400000)}
 			case <-time.After(time.Duration(budgetS+240) * time.Second):
 				_ = cmd.Process.Kill()
-				ch <- wres{k, fmt.Errorf("worker exceeded wall-clock limit"), tail(stderr.String(), 6000)}
+				ch <- wres{k, fmt.Errorf("worker exceeded wall-clock limit"), tail(stderr.String(), 400000)}
 			}
 		}(k)
 	}
@@ -844,7 +844,7 @@ func fanOut(b *build, prop, tier string, seed uint64, n, procs, budgetS int, kee
 		f, err := os.Open(filepath.Join(tmp, fmt.Sprintf("w%d.jsonl", k)))
 		if err != nil {
 			if w, bad := werrs[k]; bad {
-				harnessErrs = append(harnessErrs, fmt.Sprintf("worker %d failed before producing output: %v\n%s", k, w.err, w.stderr))
+				harnessErrs = append(harnessErrs, fmt.Sprintf("worker %d failed before producing output: %v\n%s", k, w.err, tail(w.stderr, 6000)))
 			}
 			continue
 		}
@@ -881,11 +881,16 @@ func fanOut(b *build, prop, tier string, seed uint64, n, procs, budgetS int, kee
 				if info.Crash && gatePanic(w.stderr) {
 					crashes = append(crashes, &Result{Prop: prop, Index: lastStart, Seed: seed,
 						Viol: &Violation{Class: "process-crash", Sig: crashSig(w.stderr), Detail: w.stderr}})
+				} else if site := watchdogGateSite(w.stderr); info.Crash && site != "" {
+					// the run made no progress for the watchdog period while executing gate code
+					// (not parked in the simulator): an endless loop or a runaway allocation
+					crashes = append(crashes, &Result{Prop: prop, Index: lastStart, Seed: seed,
+						Viol: &Violation{Class: "no-progress-in-gate-code", Sig: site, Detail: tail(w.stderr, 3000)}})
 				} else {
-					harnessErrs = append(harnessErrs, fmt.Sprintf("worker %d died in run index %d: %v\n%s", k, lastStart, w.err, w.stderr))
+					harnessErrs = append(harnessErrs, fmt.Sprintf("worker %d died in run index %d: %v\n%s", k, lastStart, w.err, tail(w.stderr, 6000)))
 				}
 			} else {
-				harnessErrs = append(harnessErrs, fmt.Sprintf("worker %d failed: %v\n%s", k, w.err, w.stderr))
+				harnessErrs = append(harnessErrs, fmt.Sprintf("worker %d failed: %v\n%s", k, w.err, tail(w.stderr, 6000)))
 			}
 		}
 		// race reports
@@ -942,6 +947,27 @@ func gatePanic(stderr string) bool {
 		return true
 	}
 	return false
+}
+
+// watchdogGateSite returns the innermost gate frame of a running (not parked) goroutine in a
+// watchdog dump, or "" if the dump shows none.
+func watchdogGateSite(stderr string) string {
+	i := strings.Index(stderr, "VSIM-WATCHDOG")
+	if i < 0 {
+		return ""
+	}
+	for _, g := range strings.Split(stderr[i:], "\n\n") {
+		head := firstLine(g)
+		if !strings.HasPrefix(head, "goroutine ") || !(strings.Contains(head, "[runnable") || strings.Contains(head, "[running")) {
+			continue
+		}
+		for _, m := range frameRe.FindAllString(g, -1) {
+			if !strings.Contains(m, "/zzverif/") {
+				return strings.TrimPrefix(m, "go.minekube.com/gate/")
+			}
+		}
+	}
+	return ""
 }
 
 func crashSig(stderr string) string {
